@@ -36,6 +36,29 @@ theorem stats_add_up_lax (c : Cfg) (hwf : c.wf = true) (evs : List EvA) (st : St
   unfold statsOf
   exact filter_partition _ _ _ (fun j _ hd => (AJ.Proofs.LaxA.predicates_chain c hwf evs st h j).1 hd)
 
+/-- counting: a pointwise stronger predicate keeps at least as many elements -/
+theorem filter_length_mono (js : List Nat) (p q : Nat → Bool) (h : ∀ j ∈ js, p j = true → q j = true) :
+    (js.filter p).length ≤ (js.filter q).length := by
+  induction js with
+  | nil => simp
+  | cons a t ih =>
+    have ih' := ih (fun j hj => h j (List.mem_cons_of_mem _ hj))
+    have ha := h a (List.mem_cons_self ..)
+    simp only [List.filter_cons]
+    cases hp : p a <;> cases hq : q a <;> simp_all <;> omega
+
+/-- during a run the numbers of `stats()` only move one way: `D` never decreases and `I` never increases, step by
+    step (no predicate reverts: `step_monotone`) -/
+theorem stats_monotone (c : Cfg) (st st' : StA) (e : EvA) (h : stepA c st e = some st') (s : Nat) :
+    (statsOf c st s).1 ≤ (statsOf c st' s).1 ∧ (statsOf c st' s).2.2.1 ≤ (statsOf c st s).2.2.1 := by
+  unfold statsOf
+  refine ⟨filter_length_mono _ _ _ (fun j _ hd => (step_monotone c st st' e h j).2.2.2 hd),
+    filter_length_mono _ _ _ (fun j _ hd => ?_)⟩
+  have hm := (step_monotone c st st' e h j).2.2.1
+  cases hr : isRunning st j
+  · rfl
+  · have := hm hr; simp [this] at hd
+
 /-- the total is the number of jobs of the scheduler, whatever happened -/
 theorem stats_total (c : Cfg) (st : StA) (s : Nat) : (statsOf c st s).2.2.2 = (c.children s).length := rfl
 
